@@ -101,6 +101,31 @@ pub fn check_batch(b: &TimeBatch, info: &mut CaseInfo) -> Result<(), String> {
 		check_one(&e.revocation_date, t, "revocationDate")?;
 	}
 
+	// thisUpdate and nextUpdate inside one whole second (any sub-second parts and offsets): whether or
+	// not such a request is served is C08's subject; if it is, both fields must still be the given
+	// instants - never an instant adjusted to make the pair presentable
+	let twin = gen::clamp_time(t0.unix, t1.nanos, t1.offset);
+	if twin.unix == t0.unix {
+		let crl = CrlSpec {
+			this_update: t0,
+			next_update: twin,
+			crl_number: Hex(vec![1]),
+			idp: None,
+			revoked: vec![],
+			kid: KidSpec::Pre(Hex(vec![9])),
+		};
+		let issuer = IssuerCase { spec: CertSpec::minimal(), key: ed_key() };
+		match build_crl(&CrlCase { crl, issuer })? {
+			Err(_) => info.class("same-second-pair:refused"),
+			Ok(b3) => {
+				info.class("same-second-pair:served");
+				let (c3, _) = decode_crl(b3.crl.der())?;
+				check_one(&c3.this_update, &t0, "thisUpdate (same-second pair)")?;
+				check_one(c3.next_update.as_ref().ok_or("no nextUpdate")?, &twin, "nextUpdate (same-second pair)")?;
+			},
+		}
+	}
+
 	// metamorphic: the same instants presented at offset 0 give byte-identical time fields
 	let utc: Vec<TimeSpec> = b.times.iter().map(|t| TimeSpec { unix: t.unix, nanos: 0, offset: 0 }).collect();
 	if utc != b.times {
